@@ -93,6 +93,92 @@ pub fn zigzag(tr: &mut Tr, seed: u64, near_log: u32, pow_log: u32, part: usize) 
     (tests, tests / 3)
 }
 
+/// The whole 32-bit types, exhaustively: the driver walks all 2^32 values and logs the observed
+/// function in run-length form - maximal segments on which consecutive outputs differ by a constant
+/// (stride 1 for to_nat, stride 2 for to_int: even and odd naturals form two linear families).
+/// A correct mapping gives a handful of segments; TLC checks each segment's end points and slope
+/// against the specification, which pins the function on every value of the segment.
+pub fn zigzag_sweep32(tr: &mut Tr) -> (u64, u64) {
+    fn emit(tr: &mut Tr, dir: &str, stride: u64, segs: &[(u32, u64, i64, u32)]) {
+        // (first input as raw bits, number of steps, delta, first output as raw bits)
+        let mut js = String::from("[");
+        for (i, (x0, cnt, d, y0)) in segs.iter().enumerate() {
+            if i > 0 {
+                js.push(',');
+            }
+            let xb = x0.to_be_bytes();
+            let yb = y0.to_be_bytes();
+            let cb = cnt.to_be_bytes();
+            js.push_str(&format!(
+                "[[{},{},{},{}],[{},{},{},{},{},{},{},{}],{},[{},{},{},{}]]",
+                xb[0], xb[1], xb[2], xb[3], cb[0], cb[1], cb[2], cb[3], cb[4], cb[5], cb[6], cb[7], d, yb[0], yb[1], yb[2], yb[3]
+            ));
+        }
+        js.push(']');
+        tr.emit(Ev::new("zz_sweep").s("dir", dir).i("w", 32).i("stride", stride as i64).i("nsegs", segs.len() as i64).raw("segs", &js));
+    }
+    // to_nat over all i32 in increasing order MIN..=MAX
+    let mut segs: Vec<(u32, u64, i64, u32)> = vec![];
+    let mut x = i32::MIN;
+    let mut prev: u32 = x.to_nat();
+    let mut cur: (u32, u64, i64, u32) = (x as u32, 0, 0, prev);
+    loop {
+        if x == i32::MAX {
+            break;
+        }
+        x += 1;
+        let y: u32 = x.to_nat();
+        let d = y as i64 - prev as i64;
+        if cur.1 == 0 {
+            cur.2 = d;
+            cur.1 = 1;
+        } else if d == cur.2 {
+            cur.1 += 1;
+        } else {
+            segs.push(cur);
+            cur = ((x - 1) as u32, 1, d, prev);
+        }
+        prev = y;
+        if segs.len() > 1000 {
+            break;
+        }
+    }
+    segs.push(cur);
+    emit(tr, "to_nat", 1, &segs);
+    // to_int over all u32: the even naturals and the odd naturals separately
+    for parity in 0..2u32 {
+        let mut segs: Vec<(u32, u64, i64, u32)> = vec![];
+        let mut y: u32 = parity;
+        let mut prev: i32 = y.to_int();
+        let mut cur: (u32, u64, i64, u32) = (y, 0, 0, prev as u32);
+        loop {
+            let (ny, of) = y.overflowing_add(2);
+            if of {
+                break;
+            }
+            y = ny;
+            let v: i32 = y.to_int();
+            let d = v as i64 - prev as i64;
+            if cur.1 == 0 {
+                cur.2 = d;
+                cur.1 = 1;
+            } else if d == cur.2 {
+                cur.1 += 1;
+            } else {
+                segs.push(cur);
+                cur = (y - 2, 1, d, prev as u32);
+            }
+            prev = v;
+            if segs.len() > 1000 {
+                break;
+            }
+        }
+        segs.push(cur);
+        emit(tr, if parity == 0 { "to_int_even" } else { "to_int_odd" }, 2, &segs);
+    }
+    (1u64 << 33, 1u64 << 33)
+}
+
 // ------------------------------------------------------------------ C18
 
 fn vb_write_ev(tr: &mut Tr, variant: &str, v: u64) {
